@@ -560,6 +560,9 @@ func (sc *Scenario) writeWeather(dir string) error {
 		sc.weatherHeader(&b, hdr, "-,C,C,C,mm,MJ m-2,m s-1,%")
 		for _, d := range w.Days {
 			tavg := f1(d.Tavg)
+			if w.ExactTavg {
+				tavg = fmtG(d.Tavg)
+			}
 			if d.NoneTavg {
 				tavg = sc.noneStr()
 			}
